@@ -44,6 +44,13 @@ func units(t time.Time, epoch time.Time) int { return int(t.Sub(epoch) / unit) }
 
 // (1) the ticker alone on a jumping mock clock
 func runTicker(t *testing.T, tw *trace.Writer, c *scase, idx int, res *vh.Result) {
+	defer func() {
+		// goroutines that stay blocked for ever make the bubble panic on exit; the trace written so far is still judged
+		if x := recover(); x != nil {
+			res.Note("bubble left with blocked goroutines: %v", x)
+			res.Hit("goroutines-left-blocked")
+		}
+	}()
 	synctest.Test(t, func(t *testing.T) {
 		epoch := time.Now() // bubble start: 2000-01-01T00:00:00Z, a multiple of every interval used
 		mock := clock.NewMock(epoch.Add(time.Duration(c.Cfg.S) * unit))
